@@ -113,6 +113,14 @@ SPECS = [
          params="(dayEnded elapsedOn inEco : Bool)",
          atoms={"self.__eco_mode.update(datetime.now())": ("bool", "dayEnded"), "self.__eco_mode.elapsed_on()": ("bool", "elapsedOn"),
                 "self.is_eco(allow_substates=True)": ("bool", "inEco")}),
+    dict(lean="comfortPoll", file="controller/filtration.py", cls="Filtration", method="do_repeat_comfort", params="(forcing recovering : Bool)",
+         atoms={"self.__heating_ask(@Heating.is_forcing(), True)": ("bool", "forcing"), "self.__heating_ask(@Heating.is_recovering(), True)": ("bool", "recovering")},
+         effects={r"self\.__eco_mode\.update\(.*\)": "eco update", r"self\.__stir_mode\.update\(.*\)": "stir update"}),
+    dict(lean="standbyNormalPoll", file="controller/filtration.py", cls="Filtration", method="do_repeat_standby_normal", params="(speedStandby : Int)",
+         atoms={"self.__speed_standby": ("int", "speedStandby")}, effects={r"self\.__eco_mode\.update\(.*\)": "eco update", r"self\.__stir_mode\.update\(.*\)": "stir update"}),
+    dict(lean="overflowNormalPoll", file="controller/filtration.py", cls="Filtration", method="do_repeat_overflow_normal", params="", atoms={}, effects={r"self\.__eco_mode\.update\(.*\)": "eco update", r"self\.__stir_mode\.update\(.*\)": "stir update"}),
+    dict(lean="heatingRunningPoll", file="controller/filtration.py", cls="Filtration", method="do_repeat_heating_running", params="",
+         atoms={"datetime.now()": ("int", "now")}, effects={r"self\.__eco_mode\.update\(.*\)": "eco update", r"self\.__stir_mode\.update\(.*\)": "stir update"}),
     dict(lean="tankForceEmpty", file="controller/tank.py", cls="Tank", method="force_empty", params="(previous value halted : Bool)",
          atoms={"self.__force_empty": ("bool", "previous"), "value": ("bool", "value"), "self.is_halt()": ("bool", "halted")}),
     dict(lean="tankIsLow", file="controller/filtration.py", cls="Filtration", method="tank_is_low", returns=True, params="(isHalt isLow isFill : Bool)",
@@ -159,7 +167,7 @@ _COMMON = {"__temperature": ("param", "temperature"), "__devices": ("param", "de
 ROLES = {
     "Tank": {**_COMMON, "__force_empty": ("setter", "force_empty"), "__get_tank_height": ("method_containing", "get_sensor('tank')")},
     "Filtration": {**_COMMON, "__eco_mode": ("init_call", "EcoMode"), "__stir_mode": ("init_call", "StirMode"),
-                   "__start_backwash": ("method_containing", "tank_is_high()"), "__reload_eco": ("method_containing", "reload.defer()"), "__cover_position_eco": ("setter", "cover_position_eco"), "__backwash_period": ("setter", "backwash_period"),
+                   "__start_backwash": ("method_containing", "tank_is_high()"), "__heating_ask": ("method_containing", "future.get(timeout"), "__reload_eco": ("method_containing", "reload.defer()"), "__cover_position_eco": ("setter", "cover_position_eco"), "__backwash_period": ("setter", "backwash_period"),
                    "__backwash_last": ("setter", "backwash_last"), "__speed_standby": ("setter", "speed_standby")},
     "Swim": {**_COMMON, "__timer": ("setter", "timer"), "__speed": ("setter", "speed")},
     "Heating": {**_COMMON, "__enable": ("setter", "enable"), "__setpoint": ("setter", "setpoint"), "__min_temp": ("setter", "min_temp"),
@@ -599,6 +607,20 @@ class Exec:
                     b = ("obj", self.key_of(st.value, env)[1:])
                 if b is not None:
                     return bind(env, b)
+                if isinstance(st.value, ast.IfExp):
+                    # x = a if c else b
+                    va, vb = st.value.body, st.value.orelse
+
+                    def arm(e, v):
+                        b2 = self.lookup(v, e)
+                        if b2 is None:
+                            t2, r2 = self.term(v, e)
+                            if r2:
+                                raise Opaque(unp(st))
+                            b2 = ("int", t2)
+                        return bind(e, b2)
+
+                    return self.branch(st.value.test, env, lambda e: arm(e, va), lambda e: arm(e, vb))
                 if isinstance(st.value, (ast.BoolOp, ast.Compare)) or (isinstance(st.value, ast.UnaryOp) and isinstance(st.value.op, ast.Not)):
                     # a boolean expression: evaluated with short-circuit semantics, the local is then a known literal
                     return self.branch(st.value, env, lambda e: bind(e, ("bool", "true")), lambda e: bind(e, ("bool", "false")))
